@@ -16,11 +16,13 @@ PROPS["C13"] = dict(
                 "(machine words wrap via explicit mod 2^64, math/big = mathematical integers); every obligation is one SMT query "
                 "over the full int64/uint64 domain of (Interval, Quantity, minimum) - there is no magnitude bound.",
     bounds=dict(quick="whole domain: Interval in int64, Quantity in uint64, minimum in int64; no loops in the encoded code",
-                thorough="same, plus a z3-new and cvc5 cross-check of every query"),
+                thorough="same, plus every query decided a second time by z3 5.1.0 (cvc5 1.0.3 decides all but one of them within 30 s; not registered)"),
     assumptions=["math/big.Int SetUint64/SetInt64/Mul/Quo/IsUint64/Uint64 modelled as mathematical integers (truncated division)",
                  "error values are distinct package-level variables (compared by identity)"],
     groups=[
         dict(mod="v2", pkg="limit", overlay="harness/v2/limit", harness="^VerifC13_", native=True, mode="int"),
+        # thorough: the same obligations decided independently by a second solver (z3 5.1.0)
+        dict(mod="v2", pkg="limit", overlay="harness/v2/limit", harness="^VerifC13_", native=True, mode="int", solver="z3-new", thorough_only=True),
     ],
 )
 
